@@ -15,6 +15,7 @@ import (
 	"path/filepath"
 	"strings"
 	"sync"
+	"syscall"
 	"testing"
 )
 
@@ -39,9 +40,9 @@ type zzvUntarIn struct {
 	Corrupt int `json:"corrupt"`
 }
 
-func zzvBuildTar(root string, arch []zzvEntry) ([]byte, error) {
+func zzvBuildTar(gzw *gzip.Writer, root string, arch []zzvEntry) ([]byte, error) {
 	var buf bytes.Buffer
-	gzw := gzip.NewWriter(&buf)
+	gzw.Reset(&buf) // a fresh gzip.Writer per archive costs ~1 MB of allocation
 	tw := tar.NewWriter(gzw)
 	for _, e := range arch {
 		name := strings.Join(e.Name, "/")
@@ -108,6 +109,7 @@ func zzvArchString(a []zzvEntry) string {
 func TestZZVUntarReplay(t *testing.T) {
 	var in zzvUntarIn
 	zzvLoad(t, "ZZV_IN", &in)
+	syscall.Umask(0o022)
 	base, err := os.MkdirTemp(os.Getenv("ZZV_WORK"), "untar-")
 	if err != nil {
 		t.Fatal(err)
@@ -126,6 +128,7 @@ func TestZZVUntarReplay(t *testing.T) {
 		wg.Add(1)
 		go func() {
 			defer wg.Done()
+			gzw, _ := gzip.NewWriterLevel(nil, gzip.BestSpeed)
 			for c := range jobs {
 				root := filepath.Join(base, fmt.Sprintf("c%d", c.ID))
 				fail := func(err error) {
@@ -146,7 +149,7 @@ func TestZZVUntarReplay(t *testing.T) {
 					fail(err)
 					continue
 				}
-				tgz, err := zzvBuildTar(root, c.Arch)
+				tgz, err := zzvBuildTar(gzw, root, c.Arch)
 				if err != nil {
 					fail(err)
 					continue
